@@ -330,7 +330,16 @@ def vItem (s : VSt) : Item → Except String VSt
     match s.ths[t]? with
     | none => .error "no such thread"
     | some th =>
-      if op == "inc" then
+      if op == "hinc" then
+        -- an update through the handle this thread obtained last, kept across removals / resets; no step at all without one
+        match s.handle.find? (·.1 == t) with
+        | some (_, c) => match openCall th i op (fun _ => some (.incChild c)) (fun _ => false) with
+          | .ok th' => .ok { s with ths := s.ths.set t th' }
+          | .error e => .error e
+        | none => match openCall th i op (fun _ => none) (fun _ => true) with
+          | .ok th' => .ok { s with ths := s.ths.set t th' }
+          | .error e => .error e
+      else if op == "inc" then
         -- update through the handle obtained by the preceding `with` of this thread (index "<i>u")
         if th.pc.isSome || th.retv.isSome then .error "call while another call is open" else
         match s.handle.find? (·.1 == t) with
